@@ -22,6 +22,7 @@
 //   /af#3    rArrayF  -0.5..0.75              default 0.25
 //   /at#2    rArrayT                          default false
 //   /al#8    rArrayI  0..100                  default 0 (written [8x0])
+//   /a2x#3   rArrayI  0..100                  default 0 (written [3x0]): an array whose NAME contains a digit - the element index is what stands where the name has its '#'
 //   /ab#8    rArrayT                          default false (written [8xfalse]): its saved form can contain a compressed run of toggles
 //   /fx_on   rToggle  default false
 //   /fx/     rRecurp  (allocated by fx_on) enabled by fx_on:  gain rParamI 0..10 default 3, level rParamI 0..100 default depends on type: 11 22 33, type rParamI 0..2 (re-initialises level),  voice#2/ rRecurs: vol rParamI 0..127 default 64
@@ -44,7 +45,7 @@ struct Osc { int gain = 5; static const rtosc::Ports ports; };
 struct Fx { int gain = 3; int level = 11; int type = 0; Voice voice[2]; void type_changed() { static const int l[3] = {11, 22, 33}; level = l[type < 0 ? 0 : type > 2 ? 2 : type]; } static const rtosc::Ports ports; };
 struct App {
     char pc = 64; int pi = 5; int pn = 0; float pf = 0.5f; float pg = 1.0f; bool pt = false; int po = 1; char ps[8];
-    int preset = 0; int dep = 10; int mode = 0; int dep2 = 1; int chain = 0; bool tg = false; int dep3 = 5; char al[8]; bool fx_on = false; Fx *fx = nullptr; char ai[3]; float af[3]; bool at[2]; bool ab[8] = {false, false, false, false, false, false, false, false};
+    int preset = 0; int dep = 10; int mode = 0; int dep2 = 1; int chain = 0; bool tg = false; int dep3 = 5; char al[8]; bool fx_on = false; Fx *fx = nullptr; char ai[3]; float af[3]; bool at[2]; bool ab[8] = {false, false, false, false, false, false, false, false}; char a2x[3] = {0, 0, 0};
     bool sub_on = true; Sub sub; Sub subs[2]; bool palloc = false; Sub *psub = nullptr; int preset_b = 0; Osc osc; int osc_type = 0;
     App() { strcpy(ps, "abc"); for (int i = 0; i < 3; ++i) { ai[i] = 3; af[i] = 0.25f; } at[0] = at[1] = false; memset(al, 0, sizeof al); }
     ~App() { delete psub; delete fx; }
@@ -117,6 +118,7 @@ inline const rtosc::Ports App::ports = {
     rArrayF(af, 3, rLinear(-0.5, 0.75), rDefault([0.25 0.25 0.25]), "float array"),   // bounds that are not whole numbers
     rArrayT(at, 2, rDefault([false false]), "toggle array"),
     rArrayI(al, 8, rLinear(0, 100), rDefault([8x0]), "long int array: its saved form can contain compressed runs"),
+    rArrayI(a2x, 3, rLinear(0, 100), rDefault([3x0]), "int array whose name contains a digit"),
     rArrayT(ab, 8, rDefault([8xfalse]), "long toggle array: a compressed run of toggles carries its value in the TYPE of the repeated element"),
 #undef rChangeCb
 #define rChangeCb obj->fx_changed();
